@@ -435,7 +435,7 @@ func Run(sc *Scenario, r *sched.Run) *Outcome {
 				// a committed key missing or a stale value, even with Seek read key by key
 				out.Fails = append(out.Fails, sched.Fail{Key: "not-linearizable-per-key:" + sc.Name, Msg: "no linearization even when every Seek is taken as a non-atomic scan (key missing / stale value): " + msg})
 			}
-			if res == porcupine.Illegal {
+			if res == porcupine.Illegal && resWeak == porcupine.Ok {
 				// only the atomic-range-read reading of Seek fails: values of different moments in one result (half of a batch)
 				out.Fails = append(out.Fails, sched.Fail{Key: "seek-not-atomic:" + sc.Name, Msg: "no linearization with Seek as an atomic range read (one result mixes the states of different moments: half of a batch / of a write sequence): " + msg})
 			}
